@@ -217,12 +217,12 @@ def part_backoff(ctx):
     p.nontrivial = info["cases"]
     p.traces = info["cases"]
     p.samples = info["samples"]
-    p.info = dict(policies=info["policies"], exhaustive_grid=True)
+    p.info = dict(policies=info["policies"], exhaustive_grid=True, saturated_cases=info.get("saturated_cases"))
 
     def bad(f, n, lst):
         p.violation("backoff-arithmetic", "NextDelayFor differs from min(max, min*1.1^n) beyond the float tolerance: %s" % lst[:400],
                     dict(kind="backoff", cases=lst[:2000]))
-    _eval_dir(p, d, "backoff_*.v", ["bad"], bad)
+    _eval_dir(p, d, "backoff_*.v", ["bad", "satbad"], bad)
     return p
 
 
@@ -421,7 +421,11 @@ def engine_part(profile, nq, nt, steps, claim, nontrivial_keys):
             p.violation("model-eval-failed", "cases file %s did not evaluate: %s" % (f, o[-600:]), dict(log=o), found_input=False)
         seen = set()
         for m in mism:
-            if not claim(m["kind"], m["mm"]):
+            try:
+                mine = claim(m["kind"], m["mm"], hist[m["h"]]["steps"][m["s"]])
+            except TypeError:
+                mine = claim(m["kind"], m["mm"])
+            if not mine:
                 continue
             tags = sorted(set(re.findall(r"M[A-Z][a-z]+(?: \"[^\"]*\")?", m["mm"])))
             key = "%s:%s" % (m["kind"], "+".join(t.replace('MNote ', '').replace('"', '') for t in tags))
@@ -536,6 +540,62 @@ def part_push_e2e(ctx):
     return p
 
 
+def part_fetch_diff(ctx):
+    """the byte budget of one fetch (GetSubscriptionMessages) against Streamer.fetch"""
+    p = Part("fetch-byte-budget")
+    d = os.path.join(ctx["work"], "fetchdiff")
+    rc, out = harness(["fetch-diff", "-seed", str(ctx["seed"]), "-n", "30" if QUICK(ctx) else "400", "-out", d], timeout=3000)
+    if rc != 0:
+        p.violation("harness-failed", "fetch-diff failed: " + out[-1500:], dict(log=out[-3000:]), found_input=False)
+        return p
+    info = json.load(open(os.path.join(d, "fetch_diff.json")))
+    p.evaluations = info["fetches"]
+    p.nontrivial = info["with_skipped_candidates"]
+    p.traces = info["fetches"]
+    p.samples = info["samples"]
+    p.info = {k: info[k] for k in ("fetches", "non_empty", "with_skipped_candidates", "oversize_alone")}
+
+    def bad(f, n, lst):
+        idx = [int(x) for x in re.findall(r"(\d+)%nat", lst)]
+        p.violation("fetch-differs", "GetSubscriptionMessages handed out different deliveries than Streamer.fetch for (candidates, MaxMessages, MaxBytes, strict, returned) = %s" %
+                    [info["cases"][i] for i in idx[:3]], dict(kind="fetch-diff", cases=[info["cases"][i] for i in idx[:10]], seed=ctx["seed"]))
+    _eval_dir(p, d, "fetch_diff.v", ["bad"], bad)
+    return p
+
+
+def part_stream(ctx):
+    """the production MessageStreamer against a scripted client (and through the StreamingPull RPC)"""
+    p = Part("stream-scenarios")
+    d = os.path.join(ctx["work"], "stream")
+    rc, out = harness(["stream", "-seed", str(ctx["seed"]), "-n", "24" if QUICK(ctx) else "240", "-out", d], timeout=3000)
+    if rc != 0:
+        p.violation("harness-failed", "the stream scenarios failed (did the streamer end with an error?): " + out[-1500:], dict(log=out[-3000:]), found_input=False)
+        return p
+    info = json.load(open(os.path.join(d, "stream.json")))
+    t = info["totals"]
+    p.evaluations = t["sends"] + t["flow_checks"]
+    p.nontrivial = t["flow_checks_with_new_sends"]
+    p.traces = t.get("scenarios_direct", 0) + t.get("scenarios_grpc", 0)
+    p.samples = [r["events"][:12] for r in info["results"][:2]]
+    p.info = dict(totals=t, head_of_line_probe={k: v for k, v in info["head_of_line_probe"].items() if k != "events"}, stall_bound_ms=3000)
+    seen = set()
+    for r in info["results"]:
+        for v in r.get("violations") or []:
+            key = v.split(":")[0]
+            if key not in seen:
+                seen.add(key)
+                p.violation(key, "%s stream, seed %s, limits %d messages / %d bytes: %s" % (r["scenario"], r["seed"], r["max_messages"], r["max_bytes"], v),
+                            dict(kind="stream-scenario", scenario=r))
+    hol = info["head_of_line_probe"]
+    if 10 not in hol["sent_sizes"]:
+        p.violation("head-of-line-limit", "limits 2 messages / 100 bytes, a 60-byte message held by the client, backlog of a 60-byte then a 10-byte message: sent sizes %s, "
+                    "%.0f transactions per second while blocked" % (hol["sent_sizes"], hol["transactions_per_second_while_blocked"]), dict(kind="stream-hol", probe=hol))
+    if hol["transactions_per_second_while_blocked"] > 100:
+        p.violation("fetch-spin", "a stream that cannot fit the next message into its byte budget re-runs its fetch %.0f times per second (starving other writers, e.g. the acks that would free capacity)" %
+                    hol["transactions_per_second_while_blocked"], dict(kind="stream-hol", probe=hol))
+    return p
+
+
 def part_c15_meta(ctx):
     """paired histories with / without spliced prune jobs on the real code + convergence rounds;
     run B is also checked step by step against the model and by the prune monitor"""
@@ -620,7 +680,9 @@ def claim_c01(kind, mm):
 
 def claim_c02(kind, mm):
     k = kind.split(":")[0]
-    return (k == "Pull" and "MResp" in mm) or "MMsgs" in mm or (k == "Publish" and "MResp" in mm)
+    # a delivery that should not exist (wrong filter / topic / subscription) is a C02 matter at
+    # the step that creates it: a later pull merely hands it out
+    return (k == "Pull" and "MResp" in mm) or "MMsgs" in mm or (k == "Publish" and "MResp" in mm) or "unexpected-delivery" in mm or "d.msg" in mm or "d.sub" in mm
 
 
 def claim_c04(kind, mm):
@@ -637,7 +699,7 @@ def claim_c06(kind, mm):
 
 def claim_c14(kind, mm):
     k = kind.split(":")[0]
-    return kind == "Job:ExpireSubs" or k == "SetDelay" or (k == "Pull" and ("MSubs" in mm or "MResp" in mm)) or \
+    return kind == "Job:ExpireSubs" or k == "SetDelay" or (k == "Pull" and ("MSubs" in mm or "MResp" in mm or "MTime" in mm)) or \
         (k == "Publish" and "MDels" in mm) or (k in ("CreateSub", "UpdateSub") and "MSubs" in mm) or kind == "Job:PruneExpiredDeliveries" or \
         "d.expires" in mm or "s.expires" in mm      # retention / expiry deadlines written by any step (seek revival included)
 
@@ -650,7 +712,18 @@ def claim_c17(kind, mm):
 def claim_c05(kind, mm):
     k = kind.split(":")[0]
     return (k == "Publish" and "MDels" in mm) or (k == "Pull" and ("illegal-selection" in mm or "MResp" in mm)) or \
-        (kind in ("Job:PruneCompletedDeliveries", "Job:PruneExpiredDeliveries") and "MDels" in mm)
+        (kind in ("Job:PruneCompletedDeliveries", "Job:PruneExpiredDeliveries") and "MDels" in mm) or \
+        "d.not_before" in mm      # predecessor links written by any step (dead-letter forwards included)
+
+
+def claim_c16(kind, mm, st):
+    # a request answered with an error must leave every table as it was
+    return st["resp"]["Kind"] == "err" and st["kind"] != "Job" and any(t in mm for t in ("MTopics", "MSubs", "MMsgs", "MDels", "MSnaps"))
+
+
+def claim_c07(kind, mm):
+    # routing by filter: which subscriptions get a delivery when something is published or forwarded
+    return "missing-delivery" in mm or "unexpected-delivery" in mm or (kind.split(":")[0] == "Publish" and "MDels" in mm)
 
 
 def claim_c03(kind, mm):
@@ -741,7 +814,7 @@ CHECKS = {
                                   "PostgreSQL itself is not exercised (no PostgreSQL offline); the PostgreSQL interval parser's sign/overflow behaviour is stated as refuted lemmas (F12), unreachable on SQLite"]),
     "C16": dict(
         props=["C16"],
-        parts=[part_c16, engine_part("general", 16, 300, 45, lambda kind, mm: False, ["publish_ok"])],
+        parts=[part_c16, engine_part("general", 32, 600, 45, claim_c16, ["publish_ok"])],
         rule="boundary-domain requests (names valid/wrong kind/empty/unknown/deleted, int32 min,-1,0,1,1000,max, durations absent/negative/zero/huge/invalid, nested messages absent/empty, "
              "ack ids live/stale/foreign/garbage/unknown/mixed/duplicate, masks known/unknown/repeated/empty, payloads JSON/non-JSON/empty) on every implemented RPC against a child-process server; "
              "one factor at a time plus all pairs of the numeric/nested CreateSubscription factors; outcome PANIC = process exit; error answers must leave the dump unchanged",
@@ -763,6 +836,19 @@ CHECKS = {
                                   "the expiry sweep and the dead-letter sweep are client-visible by design and belong to the client history of both runs",
                                   "client-visible trace equality over all histories is checked metamorphically, not proved; proved are single-step invisibility of the view (incl. blockedness), "
                                   "removal of dead rows only, and convergence"]),
+    "C11": dict(
+        props=["C11"],
+        parts=[part_fetch_diff, part_stream],
+        rule="(1) byte budget of one fetch: GetSubscriptionMessages(MaxMessages, MaxBytes, MaxBytesStrict) on databases with generated size mixes (2..400 bytes, limits below / at / above message sizes) "
+             "against Streamer.fetch evaluated in Coq; (2) the production MessageStreamer (configured as the gRPC handler does) on a real database with a scripted client - limits 1..5 messages and "
+             "20..100000 bytes, size mixes, stream acks, stream nacks (Nack list and zero deadline), external Acknowledge, publishes, waits; every fourth scenario through the real StreamingPull RPC; "
+             "monitor at every Send: messages sent and not settled <= max messages, bytes <= max bytes unless it is the only message held; after every capacity-freeing action or publish the stream "
+             "must send, within 3 s, at least one of what the model's fetch hands out for the database state and the client's holdings; (3) a deterministic head-of-line probe (transaction rate while "
+             "blocked; whether the small message behind an oversized one is sent); non-trivial = flow checks after which the stream had sent more",
+        trusted=["Go scheduler, sync.Mutex, channels, errgroup (the model's atomic sections are the code's critical sections and transactions)"],
+        assumptions=["partial: interleavings are those the runs happen to exhibit (the proof covers all interleavings of the model's atomic steps); 'promptly' is a 3 s bound",
+                     "leases are long (60 s) in the scenarios so that no message is re-sent while the client holds it: a client ack racing with such a re-send makes the client's holdings ambiguous",
+                     "known finding head-of-line-limit: with the candidate list cut by LIMIT before the byte rule, an oversized message at the head hides a smaller one that would fit"]),
     "C19": dict(
         props=["C19pure", "C19"],
         parts=[part_push_conn, part_push_e2e],
@@ -795,16 +881,18 @@ CHECKS = {
         assumptions=BUS_ASSUME + ["snapshot_meaning assumes plain deliveries (no dead-letter forwards into the subscription)"]),
     "C18": dict(
         props=["C18"],
-        parts=[part_faults_seq, part_faults_sched],
-        rule="sequential histories of Add/Check/Current and forced interleavings (yield hook between match and decrement) of 2-6 concurrent callers; "
+        parts=[part_faults_seq, part_faults_sched, part_faults_grpc],
+        rule="sequential histories of Add/Check/Current and forced interleavings (yield hook between match and decrement) of 2-6 concurrent callers; through the deployed gRPC "
+             "interceptor chain: unary calls and streaming pulls (stream-open check carrying only service -> method, general and per-message receive checks) with faults naming request fields; "
              "non-trivial = a fault fired / a caller lost the race and had to re-match",
         trusted=["Go memory model, sync/atomic and sync.RWMutex (each atomic Load/Add is one LTS step)", "the verif yield hook in faults.Set.Check (one added line)"],
         assumptions=["interleavings inside an atomic operation are not exhibited on the code; prune() is invisible (skips only exhausted entries)"]),
     "C07": dict(
         props=["C07"],
-        parts=[part_filter_c07],
+        parts=[part_filter_c07, engine_part("general", 32, 600, 45, claim_c07, ["publish_ok", "deliveries_created"])],
         rule="grammar-generated, mutated, fuzzed and bounded-exhaustive filters x attribute maps: Go ParseString+Evaluate vs model parse+eval and vs the documented semantics; "
-             "non-trivial = the filter parsed",
+             "routing: engine profile general (30% filtered subscriptions, filter updates and re-creation under the same name via a scenario template), owned projection: which subscriptions "
+             "get a delivery at Publish / dead-letter forward; non-trivial = the filter parsed, deliveries created",
         assumptions=["Unicode letter/digit classification only for the code points of Filter/Tables.v", "documented reading of != : NOT (=)"]),
     "C08": dict(
         props=["C08"],
